@@ -29,6 +29,11 @@ Queries == {
   "progressions.to_chords(['I', 'IV', 'V7'], 'C')", "progressions.to_chords('ii', 'G')", "progressions.to_chords(['VIIdim7', 'bII'], 'e')",
   "progressions.to_chords(['I'], 'C')", "progressions.determine(['C', 'E', 'G'], 'C')", "progressions.determine(['D', 'F#', 'A', 'C'], 'G', True)",
   "progressions.substitute(['I', 'IV', 'V'], 1, 1)", "progressions.substitute_harmonic(['I', 'IV'], 0)", "progressions.parse_string('bVIIm7')",
+  \* twins: questions that differ only in the case of a letter or in one accidental (each has its own answer whatever was asked before)
+  "progressions.to_chords('IM7', 'F')", "progressions.to_chords('Im7', 'F')", "progressions.to_chords(['VIIm'], 'F')", "progressions.to_chords(['VIIM'], 'F')",
+  "progressions.to_chords('bII', 'F')", "progressions.to_chords('BII', 'F')", "progressions.to_chords('II', 'G')",
+  "chords.from_shorthand('AM7')", "chords.from_shorthand('Cm')", "chords.from_shorthand('CM')", "keys.get_notes('A')", "keys.get_notes('E')", "keys.get_notes('g')",
+  "intervals.from_shorthand('C', '7')", "notes.note_to_int('G')", "notes.note_to_int('G#')", "scales.determine(['A', 'B', 'C'])",
   "intervals.third('E', 'C')", "intervals.seventh('F#', 'G')", "intervals.from_shorthand('C', 'b7')", "intervals.invert(['C', 'E', 'G'])",
   "intervals.determine('C', 'G')", "intervals.major_sixth('Eb')", "intervals.measure('C', 'B')", "intervals.interval('G', 'A', 3)",
   "notes.int_to_note(3)", "notes.reduce_accidentals('C##')", "notes.note_to_int('Gb')",
